@@ -377,14 +377,14 @@ pub fn run(ctx: &Ctx, rep: &Report) -> Meta {
     par_items(ctx, rep, "fixed-shapes", &fx, |c| check(rep, "fixed-shapes", c));
     let sweep: Vec<Case> = match ctx.tier {
         Tier::Quick => sweep_cases(ctx.seed, (13..=72).chain([127, 128, 129, 255, 256, 257])),
-        Tier::Thorough => sweep_cases(ctx.seed, (13..=300).chain([511, 512, 513, 1000])),
+        Tier::Thorough => sweep_cases(ctx.seed, (13..=160).chain([255, 256, 257, 511, 512, 513])),
     };
     par_items(ctx, rep, "size-sweep", &sweep, |c| check(rep, "size-sweep", c));
     if !rep.aborted() {
-        rep.exhaustive(format!("every message count L in {} with the sampled-position catalogue", ctx.tier.pick("13..=72 and {127..129, 255..257}", "13..=300 and {511..513, 1000}")));
+        rep.exhaustive(format!("every message count L in {} with the sampled-position catalogue", ctx.tier.pick("13..=72 and {127..129, 255..257}", "13..=160 and {255..257, 511..513}")));
     }
     let tier = ctx.tier;
-    run_cases(ctx, rep, "mutations", ctx.tier.pick(96, 1200), 200, || strat(tier), |c| check(rep, "mutations", c));
+    run_cases(ctx, rep, "mutations", ctx.tier.pick(96, 600), 200, || strat(tier), |c| check(rep, "mutations", c));
     Meta {
         rule: "honest (suite, key, header, msgs, signature) then the mutation catalogue enumerated per case: message byte change / delete / prefix at every position, \
                insert (random, empty, neighbour) at every position 0..=L, extension by 1..=3, swap and replace-by-other of every pair with different contents (all pairs for L<=12), \
@@ -393,7 +393,7 @@ pub fn run(ctx: &Ctx, rep: &Report) -> Meta {
             .into(),
         assumptions: vec![
             "accidental acceptance of a changed statement would need a hash collision (2^-128)".into(),
-            "shapes beyond the fixtures' 16-entry vectors are forced: L in {17, 21, 24, 33} with the full catalogue and every L in 13..=72 (quick) / 13..=300 (thorough) plus powers of two +-1 with the catalogue at sampled positions (first, second, middle, last two, random)".into(),
+            "shapes beyond the fixtures' 16-entry vectors are forced: L in {17, 21, 24, 33} with the full catalogue and every L in 13..=72 (quick) / 13..=160 (thorough) plus powers of two +-1 with the catalogue at sampled positions (first, second, middle, last two, random)".into(),
         ],
     }
 }
